@@ -9,6 +9,23 @@ ROOT = pathlib.Path(__file__).resolve().parent.parent
 
 # id -> (technique, level text, level_note, design_ref)
 CHECKS = {
+    "C19": (
+        "reference-model monitor (replay entries in order) on generated shots / multi-shot results",
+        "Every generated shot and multi-shot result (interleaved indexed/whole writes, bools, non-bits, look-alike tags, "
+        "all strict-flag combinations, nested lists for collation) is run through the real QsysShot/QsysResult and the outcome "
+        "(value or ValueError) is compared with a 40-line replay model of the documented convention.",
+        "Trusted: the replay model. Not covered: tags ending in newline, floats 0.0/1.0, key order of result dicts, to_pytket.",
+        "DESIGN.md §3 C19",
+    ),
+    "C07": (
+        "reference-function monitor: independent recursive bound on generator descriptors vs type_bound() and the emitted wire bound",
+        "Tens of thousands of generated type descriptors (nested sums, function types, opaque/extension types with generated "
+        "TypeDefs incl. arbitrary from-params index lists, std containers) are built with the real constructors; reported bound, "
+        "every bound field in the serialized form, Array/List bounds and StaticArray acceptance are compared with a bound "
+        "computed from the descriptor alone.",
+        "Trusted: ref_bound/wire_ty in vf/gen/types.py. Only TypeTypeArg at from-params positions; depth <= 3/5.",
+        "DESIGN.md §3 C07",
+    ),
     "C18": (
         "lock-step reference-model monitor (dict) over exhaustive+random call histories; icontract class invariant on the real BiMap",
         "Every query of the real BiMap is compared with a dict model after every step of each history: "
